@@ -15,7 +15,7 @@ ASSUMPTIONS = ["the model is an ownership ledger, not a memory model: a double f
                "drop counter / value or as a crash of the harness process (reported with the case as replay)"]
 RULE = ("collection kinds boxed / owned / retrying (+ ref) x containers Vec / Box<[T]> / array / tuple x Mutex / RwLock / "
         "Poisonable<Mutex> members x sizes 0..4 x paths {plain drop, drop by unwinding, into_inner, into_child, lock-then-into_inner, get_mut, "
-        "into_iter, into_iter dropped half-way, from_iter, extend, try_new rejecting an input that owns values, try_new accepting, "
+        "into_iter (also from both ends), into_iter dropped half-way, from_iter / extend (exact-size and filtered iterators, in pieces), From, try_new rejecting an input that owns values, try_new accepting, "
         "ref collection over owned data, Default, nested owned-in-boxed, Poisonable::into_child} x a write under the lock at each "
         "position, with drop-counting payloads; exhaustive over that space in both tiers; non-trivial = at least one value; "
         "distinct = distinct case line; plus 32 nested structures (harness/src/vtree.rs: locks, Poisonable wrappers clean and "
@@ -29,7 +29,10 @@ EXHAUSTIVE = {"quick": True, "thorough": True}
 PATHS = {"drop": "PDrop", "drop_unwinding": "PDropUnw", "into_inner": "PIntoInner", "into_child": "PIntoChild", "lock_then_into_inner": "PLockThenIntoInner",
          "get_mut": "PGetMut", "into_iter": "PIntoIter", "into_iter_partial": "PIntoIterPartial", "from_iter": "PFromIter",
          "extend": "PExtend", "try_new_reject": "PTryNewReject", "try_new_accept": "PTryNewAccept", "ref_coll": "PRefColl",
-         "default": "PDefault", "nested_into_inner": "PNestedIntoInner", "poisonable_into_inner": "PPoisonableIntoInner"}
+         "default": "PDefault", "nested_into_inner": "PNestedIntoInner", "poisonable_into_inner": "PPoisonableIntoInner",
+         # the same model paths through other routes: iterators without a size hint, extension in two pieces, From
+         "extend_filter": "PExtend", "extend_twice": "PExtend", "from_iter_filter": "PFromIter", "from_value": "PFromIter",
+         "into_iter_rev": "PIntoIter"}
 KINDS = {"boxed": "VKBoxed", "owned": "VKOwned", "retry": "VKRetry", "ref": "VKRef"}
 
 
@@ -111,7 +114,11 @@ def gen(tier, rng):
                            ("retry", "into_iter"), ("boxed", "into_iter_partial"), ("boxed", "from_iter"), ("owned", "from_iter"),
                            ("retry", "from_iter"), ("owned", "extend"), ("retry", "extend"), ("boxed", "try_new_reject"),
                            ("retry", "try_new_reject"), ("boxed", "try_new_accept"), ("ref", "ref_coll"), ("boxed", "default"),
-                           ("boxed", "nested_into_inner"), ("boxed", "poisonable_into_inner")]:
+                           ("boxed", "nested_into_inner"), ("boxed", "poisonable_into_inner"),
+                           ("owned", "extend_filter"), ("retry", "extend_filter"), ("owned", "extend_twice"),
+                           ("retry", "extend_twice"), ("boxed", "from_iter_filter"), ("owned", "from_iter_filter"),
+                           ("retry", "from_iter_filter"), ("boxed", "from_value"), ("owned", "from_value"),
+                           ("retry", "from_value"), ("boxed", "into_iter_rev")]:
             add(kind, "vec", "M", n, path, None)
     return cases
 
